@@ -1,6 +1,7 @@
 import WhVerif.Model.C13
 import WhVerif.Spec.C13
 import WhVerif.Lemmas.C13
+import WhVerif.Lemmas.C13Compose
 import WhVerif.Model.C13Header
 import WhVerif.Lemmas.C13Header
 import WhVerif.Spec.C13Edit
@@ -174,111 +175,206 @@ example : PhaseOnlyEdit [⟨["chr1"], [⟨some ⟨[some 0, some 1], false⟩, [(
 example : ∀ r ∈ [(⟨["chr1"], [⟨some ⟨[some 1, some 0], true⟩, [("PS", "7")]⟩, ⟨some ⟨[none], false⟩, []⟩]⟩ : Record)],
     ∀ c ∈ r.calls, curSafe c = true := by decide
 
-/-! ## the header (`unphase_header`) and the whole file (`Model/C13Header.lean`) -/
+/-! ### unphase after `whatshap phase`: composition with the C04 model (`Model/C13Bridge.lean`) -/
 
-/-- **header_no_phase_definitions**: the output header (HEAD and repaired) defines none of the FORMAT keys HP, PQ, PS; the
-repaired one has no `##phasing` line either. -/
-theorem header_no_phase_definitions (h : List HLine) :
-    (∀ l ∈ unphaseHeaderCur h, isPhaseFormat l = false) ∧
-    (∀ l ∈ unphaseHeaderFix h, isPhaseFormat l = false ∧ isPhasing l = false) := by
-  refine ⟨?_, ?_⟩
-  · intro l hl
-    simpa using (List.mem_filter.mp hl).2
-  · intro l hl
-    have := (List.mem_filter.mp hl).2
-    rw [keepLine_eq] at this
-    simpa [and_comm] using this
+open WhVerif in
+/-- **phase_is_phase_only_edit**.  What `PhasedVcfWriter.write` (C04's `writeChrom`) does to the records of a
+chromosome block, seen as records of this model (`ofC04`), is a phase-only edit — provided it reports no genotype
+change (which is the case unless genotypes are distrusted, `Props.C04.alleles_preserved_from_table`) and sample
+names are distinct.  This discharges the hypothesis of `unphase_phase_eq_unphase` from the writer's model instead of
+assuming it. -/
+theorem phase_is_phase_only_edit (cfg : C04.Cfg) (prev : Option Nat) (rs : List C04.Record)
+    (hnd : ∀ r ∈ rs, (r.calls.map (·.1)).Nodup) (hno : ∀ o ∈ C04.writeChrom cfg prev rs, o.changes = []) :
+    PhaseOnlyEdit (rs.map ofC04) ((C04.writeChrom cfg prev rs).map (fun o => ofC04 o.record)) :=
+  writeChrom_edit cfg rs prev hnd hno
 
-/-- **header_rest_unchanged**: nothing else happens to the header: the output is a sub-list of the input (same lines, same
-order) and every line that is neither a `##phasing` line nor one of the three FORMAT definitions survives; the repaired
-function removes exactly those lines. -/
-theorem header_rest_unchanged (h : List HLine) :
-    (unphaseHeaderCur h).Sublist h ∧ (unphaseHeaderCur h).filter keepLine = h.filter keepLine ∧
-    unphaseHeaderFix h = h.filter keepLine := by
-  refine ⟨(List.filter_sublist).trans (removeFirst_sublist _ _), ?_, rfl⟩
-  unfold unphaseHeaderCur
-  rw [List.filter_filter]
-  have : (removeFirst isPhasing h).filter (fun a => keepLine a && !isPhaseFormat a) = (removeFirst isPhasing h).filter keepLine := by
+open WhVerif in
+/-- **unphase_after_whatshap_phase**.  For the whole file as `whatshap phase` writes it (`C04.fileOut`: any number of
+chromosome blocks, any `--sample`/`--chromosome` selection, either tag, pre-existing phase information, records of
+every kind): if no genotype change is reported, unphasing the output gives exactly the records that unphasing the
+input gives. -/
+theorem unphase_after_whatshap_phase (fc : C04.FileCfg) (ph : C04.Phasing) (recs : List C04.FRec)
+    (hnd : ∀ fr ∈ recs, (fr.record.calls.map (·.1)).Nodup)
+    (hno : ∀ b ∈ C04.expectedBlocks fc ph 0 (C04.groupChrom recs), ∀ o ∈ b, o.changes = []) :
+    unphase ((C04.fileOut fc ph recs).map (fun o => ofC04 o.record)) = unphase (recs.map (fun fr => ofC04 fr.record)) := by
+  have h := expectedBlocks_edit fc ph (C04.groupChrom recs) 0
+    (by
+      intro cg hcg fr hfr
+      apply hnd
+      rw [← C04.groupChrom_flatten recs]
+      exact List.mem_flatMap.mpr ⟨cg, hcg, hfr⟩)
+    hno
+  rw [C04.groupChrom_flatten] at h
+  exact unphase_phase_eq_unphase h
+
+/-! ### header (`unphase_header`) -/
+
+open WhVerif in
+/-- **header_only_phase_lines_removed**.  `unphase_header` leaves no FORMAT definition of HP, PQ or PS; every other
+line that is not a `phasing` line is kept; nothing is added (the result is a sublist of the input header, so the
+order of the lines is kept as well); and at most one `phasing` line is removed. -/
+theorem header_only_phase_lines_removed (h : List C04.HLine) :
+    (∀ l ∈ unphaseHeader h, isPhaseFormat l = false) ∧
+    (∀ l ∈ h, l.key ≠ "phasing" → isPhaseFormat l = false → l ∈ unphaseHeader h) ∧
+    (unphaseHeader h).Sublist h ∧
+    (removePhaseFormats h).length ≤ (unphaseHeader h).length + 1 := by
+  refine ⟨fun l hl => (mem_removePhaseFormats.mp hl).2, ?_, ?_, ?_⟩
+  · intro l hl hk hp
+    exact mem_removePhaseFormats.mpr ⟨C04.mem_removeFirstPhasing hl hk, hp⟩
+  · have hs : (C04.removeFirstPhasing h).Sublist h := by
+      induction h with
+      | nil => exact List.Sublist.slnil
+      | cons a r ih =>
+        unfold C04.removeFirstPhasing
+        split
+        · exact List.sublist_cons_self a r
+        · exact ih.cons_cons a
+    exact (List.filter_sublist).trans hs
+  · unfold unphaseHeader
+    rw [← removeFirstPhasing_filter_comm]
+    exact C04.removeFirstPhasing_length _
+
+open WhVerif in
+/-- **header_idempotent** as far as it holds for the code as it is: on a header with at most one `phasing` line a
+second application changes nothing. -/
+theorem header_idempotent_of_single_phasing (h : List C04.HLine)
+    (hone : ∀ l ∈ C04.removeFirstPhasing h, l.key ≠ "phasing") :
+    unphaseHeader (unphaseHeader h) = unphaseHeader h := by
+  unfold unphaseHeader
+  rw [removeFirstPhasing_filter_comm (C04.removeFirstPhasing h), removeFirstPhasing_of_none hone,
+    removePhaseFormats_idem]
+
+open WhVerif in
+/-- **f61_second_phasing_line** (defect F61, witness on the faithful model): with two `##phasing=` lines the first
+application leaves one behind and the second application removes it — applying `unphase` twice does not equal
+applying it once. -/
+theorem f61_second_phasing_line :
+    let h : List C04.HLine := [⟨"fileformat", none, "", "", "VCFv4.2"⟩, ⟨"phasing", none, "", "", "none"⟩,
+      ⟨"phasing", none, "", "", "partial"⟩, ⟨"FORMAT", some "PS", "1", "Integer", ""⟩]
+    unphaseHeader h = [⟨"fileformat", none, "", "", "VCFv4.2"⟩, ⟨"phasing", none, "", "", "partial"⟩] ∧
+    unphaseHeader (unphaseHeader h) = [⟨"fileformat", none, "", "", "VCFv4.2"⟩] := by
+  constructor <;> decide
+
+open WhVerif in
+/-- **header_fix_idempotent**: after `fixes/F61.patch` (every `phasing` line removed) the header edit is idempotent on
+every header, leaves no `phasing` line and no FORMAT definition of a phase tag, and keeps every other line. -/
+theorem header_fix_idempotent (h : List C04.HLine) :
+    unphaseHeaderFix (unphaseHeaderFix h) = unphaseHeaderFix h ∧
+    (∀ l ∈ unphaseHeaderFix h, l.key ≠ "phasing" ∧ isPhaseFormat l = false) ∧
+    (∀ l ∈ h, l.key ≠ "phasing" → isPhaseFormat l = false → l ∈ unphaseHeaderFix h) := by
+  refine ⟨?_, ?_, ?_⟩
+  · simp only [unphaseHeaderFix, removePhaseFormats, List.filter_filter]
+    congr 1
+    funext l
+    cases isPhaseFormat l <;> cases decide (l.key = "phasing") <;> rfl
+  · intro l hl
+    simp only [unphaseHeaderFix, removePhaseFormats, List.mem_filter] at hl
+    exact ⟨by simpa using hl.1.2, by simpa using hl.2⟩
+  · intro l hl hk hp
+    simp only [unphaseHeaderFix, removePhaseFormats, List.mem_filter]
+    exact ⟨⟨hl, by simpa using hk⟩, by simpa using hp⟩
+
+/-! non-vacuity of the composition: a block through the C04 writer satisfies the hypotheses, and this is what it
+    looks like in this model -/
+open WhVerif in
+def exC04Cfg : C04.Cfg := ⟨.PS, false, false, true, ["A", "B"], [⟨"A", [(10, 0)], [(10, 1)], [(10, 10)]⟩]⟩
+open WhVerif in
+def exC04Rec : C04.Record := ⟨"chr1\t11\t.\tA\tC\t.\tPASS\t.", 10, "A", ["C"], ["GT", "DP"],
+  [("A", ⟨some [some 1, some 0], false, [("DP", .raw "7")]⟩), ("B", ⟨some [some 1, some 0], true, [("DP", .raw "9")]⟩)]⟩
+open WhVerif in
+example : (∀ r ∈ [exC04Rec], (r.calls.map (·.1)).Nodup) ∧ (∀ o ∈ C04.writeChrom exC04Cfg none [exC04Rec], o.changes = []) := by
+  constructor <;> decide
+open WhVerif in
+example : (C04.writeChrom exC04Cfg none [exC04Rec]).map (fun o => (ofC04 o.record).calls) =
+    [[⟨some ⟨[some 0, some 1], true⟩, [("DP", "7"), ("PS", "11")]⟩, ⟨some ⟨[some 1, some 0], true⟩, [("DP", "9"), ("PS", ".")]⟩]] ∧
+    (ofC04 exC04Rec).calls = [⟨some ⟨[some 1, some 0], false⟩, [("DP", "7")]⟩, ⟨some ⟨[some 1, some 0], true⟩, [("DP", "9")]⟩] := by
+  constructor <;> decide
+open WhVerif in
+example : ∀ l ∈ C04.removeFirstPhasing [⟨"phasing", none, "", "", "none"⟩, ⟨"FORMAT", some "PS", "1", "Integer", ""⟩],
+    l.key ≠ "phasing" := by decide
+
+open WhVerif
+/-! ## more on the header, and the whole file (`Model/C13Header.lean`; round E12) -/
+
+/-- **header_rest_unchanged**: sharper than membership — restricted to the lines that are neither `##phasing` lines nor
+FORMAT definitions of HP/PQ/PS (`keepLine`), input and output header are the same *list* (same lines, same order, same
+multiplicity), for the header function with and without fixes/F61.patch; the repaired function is exactly that filter. -/
+theorem header_rest_unchanged (h : List C04.HLine) :
+    (unphaseHeader h).filter keepLine = h.filter keepLine ∧ unphaseHeaderFix h = h.filter keepLine := by
+  refine ⟨?_, unphaseHeaderFix_eq h⟩
+  rw [unphaseHeader_eq, List.filter_filter]
+  have : (removeFirst isPhasingLine h).filter (fun a => keepLine a && !isPhaseFormat a)
+      = (removeFirst isPhasingLine h).filter keepLine := by
     apply List.filter_congr
     intro x _
     rw [keepLine_eq]
-    cases isPhasing x <;> cases isPhaseFormat x <;> rfl
-  rw [this, filter_removeFirst isPhasing keepLine phasing_not_keep]
+    cases isPhasingLine x <;> cases isPhaseFormat x <;> rfl
+  rw [this, filter_removeFirst isPhasingLine keepLine phasing_not_keep]
 
-/-- **header_idempotent** (repaired): applying `unphase_header` twice equals applying it once. -/
-theorem header_idempotent (h : List HLine) : unphaseHeaderFix (unphaseHeaderFix h) = unphaseHeaderFix h := by
-  unfold unphaseHeaderFix
-  rw [List.filter_filter]
-  apply List.filter_congr
-  intro x _
-  simp
-
-/-- **header_cur_idempotent_iff** (exact extent of F76): HEAD's `unphase_header` is idempotent on a header iff the header
-has at most one `##phasing` line — it removes only the first, a second application removes the next. -/
-theorem header_cur_idempotent_iff (h : List HLine) :
-    unphaseHeaderCur (unphaseHeaderCur h) = unphaseHeaderCur h ↔ (h.filter isPhasing).length ≤ 1 := by
-  have hstep : unphaseHeaderCur (unphaseHeaderCur h) = removeFirst isPhasing (unphaseHeaderCur h) := by
+/-- **header_idempotent_iff** (exact extent of F61 = F76): the header function with the `break` is idempotent on a header
+iff the header has at most one `##phasing` line (`header_idempotent_of_single_phasing` is the "if" direction). -/
+theorem header_idempotent_iff (h : List C04.HLine) :
+    unphaseHeader (unphaseHeader h) = unphaseHeader h ↔ (h.filter isPhasingLine).length ≤ 1 := by
+  have hstep : unphaseHeader (unphaseHeader h) = removeFirst isPhasingLine (unphaseHeader h) := by
     -- the second pass finds no FORMAT definition to remove
-    show (removeFirst isPhasing (unphaseHeaderCur h)).filter (fun l => !isPhaseFormat l) = _
+    rw [unphaseHeader_eq (unphaseHeader h)]
     apply List.filter_eq_self.mpr
     intro x hx
-    have hx' : x ∈ unphaseHeaderCur h := (removeFirst_sublist _ _).subset hx
-    simpa using (List.mem_filter.mp hx').2
+    have hx' : x ∈ unphaseHeader h := (removeFirst_sublist _ _).subset hx
+    have := (header_only_phase_lines_removed h).1 x hx'
+    simp [this]
   rw [hstep, removeFirst_eq_self_iff]
   have hcount := count_phasing_cur h
   constructor
   · intro hall
-    have : (unphaseHeaderCur h).filter isPhasing = [] := List.filter_eq_nil_iff.mpr (fun x hx => by simp [hall x hx])
+    have : (unphaseHeader h).filter isPhasingLine = [] := List.filter_eq_nil_iff.mpr (fun x hx => by simp [hall x hx])
     rw [this] at hcount
     simp at hcount
     omega
   · intro hle x hx
-    cases hp : isPhasing x with
+    cases hp : isPhasingLine x with
     | false => rfl
     | true =>
-      have : x ∈ (unphaseHeaderCur h).filter isPhasing := List.mem_filter.mpr ⟨hx, hp⟩
-      have hpos : 0 < ((unphaseHeaderCur h).filter isPhasing).length := List.length_pos_of_mem this
+      have : x ∈ (unphaseHeader h).filter isPhasingLine := List.mem_filter.mpr ⟨hx, hp⟩
+      have hpos : 0 < ((unphaseHeader h).filter isPhasingLine).length := List.length_pos_of_mem this
       omega
 
-/-- with at most one `##phasing` line HEAD and the repaired function agree -/
-theorem header_cur_eq_fix (h : List HLine) (hle : (h.filter isPhasing).length ≤ 1) :
-    unphaseHeaderCur h = unphaseHeaderFix h := by
-  unfold unphaseHeaderCur unphaseHeaderFix
-  rw [removeFirst_eq_filter isPhasing h hle, List.filter_filter]
+/-- with at most one `##phasing` line the two header functions agree -/
+theorem header_eq_fix_of_single_phasing (h : List C04.HLine) (hle : (h.filter isPhasingLine).length ≤ 1) :
+    unphaseHeader h = unphaseHeaderFix h := by
+  rw [unphaseHeader_eq, unphaseHeaderFix_eq, removeFirst_eq_filter isPhasingLine h hle, List.filter_filter]
   apply List.filter_congr
   intro x _
   rw [keepLine_eq, Bool.and_comm]
 
-/-- **F76** on the faithful model: two `##phasing` lines — the first application leaves the second one, the second
-application removes it: `unphase (unphase x) ≠ unphase x` -/
-example : unphaseHeaderCur [⟨"phasing", none, "##phasing=partial"⟩, ⟨"phasing", none, "##phasing=none"⟩]
-      = [⟨"phasing", none, "##phasing=none"⟩] ∧
-    unphaseHeaderCur (unphaseHeaderCur [⟨"phasing", none, "##phasing=partial"⟩, ⟨"phasing", none, "##phasing=none"⟩]) = [] := by
-  decide
+example : ∃ h : List C04.HLine, (h.filter isPhasingLine).length ≤ 1 ∧ h ≠ [] :=
+  ⟨[⟨"phasing", none, "", "", "none"⟩, ⟨"FORMAT", some "PS", "1", "Integer", ""⟩], by decide, by decide⟩
 
 /-- **header_phase_only_edit**: headers that differ only in `##phasing` lines and HP/PQ/PS FORMAT definitions (what a
 phasing writer adds) have the same unphased header. -/
-theorem header_phase_only_edit (h h' : List HLine) (he : h'.filter keepLine = h.filter keepLine) :
-    unphaseHeaderFix h' = unphaseHeaderFix h := he
+theorem header_phase_only_edit (h h' : List C04.HLine) (he : h'.filter keepLine = h.filter keepLine) :
+    unphaseHeaderFix h' = unphaseHeaderFix h := by
+  rw [unphaseHeaderFix_eq, unphaseHeaderFix_eq, he]
 
 /-- **output_declares_its_keys**: if the header of the input declares every FORMAT key its records use, so does the output
-(HEAD and repaired): no definition that an output record still needs is removed — htslib can serialise the result. -/
+(with either header function): no definition that an output record still needs is removed — htslib can serialise the
+result. -/
 theorem output_declares_its_keys (f : VcfFile) (hd : Declared f) :
     Declared (unphaseFileCur f) ∧ Declared (unphaseFileFix f) := by
-  have key : ∀ r' ∈ unphase f.records, ∀ k ∈ recordKeys r', ∃ l ∈ f.header, (l.key == "FORMAT" && l.id == some k) = true ∧
-      keepLine l = true := by
+  have key : ∀ r' ∈ unphase f.records, ∀ k ∈ recordKeys r', ∃ l ∈ f.header,
+      (decide (l.key = "FORMAT") && decide (l.id = some k)) = true ∧ keepLine l = true := by
     intro r' hr' k hk
     simp only [unphase, List.mem_map] at hr'
     obtain ⟨r, hr, rfl⟩ := hr'
     obtain ⟨hk1, hk2⟩ := recordKeys_unphase r k hk
     have := hd r hr k hk1
-    unfold declares at this
+    unfold C04.defined at this
     obtain ⟨l, hl, hlk⟩ := List.any_eq_true.mp this
     refine ⟨l, hl, hlk, ?_⟩
-    simp only [Bool.and_eq_true, beq_iff_eq] at hlk
+    simp only [Bool.and_eq_true, decide_eq_true_eq] at hlk
     rw [keepLine_eq]
-    have h1 : isPhasing l = false := by
-      unfold isPhasing; rw [hlk.1]; rfl
+    have h1 : isPhasingLine l = false := by
+      unfold isPhasingLine; rw [hlk.1]; rfl
     have h2 : isPhaseFormat l = false := by
       unfold isPhaseFormat; rw [hlk.2]; simp [hk2]
     simp [h1, h2]
@@ -291,25 +387,24 @@ theorem output_declares_its_keys (f : VcfFile) (hd : Declared f) :
     exact List.any_eq_true.mpr ⟨l, mem_fix_of_keep _ l hl hkeep, hlk⟩
 
 example : ∃ f : VcfFile, Declared f ∧ f.records ≠ [] ∧ f.header ≠ [] :=
-  ⟨⟨[⟨"FORMAT", some "GT", "##FORMAT=<ID=GT,…>"⟩, ⟨"FORMAT", some "PS", "##FORMAT=<ID=PS,…>"⟩],
+  ⟨⟨[⟨"FORMAT", some "GT", "1", "String", ""⟩, ⟨"FORMAT", some "PS", "1", "Integer", ""⟩],
     [⟨[], [⟨some ⟨[some 0, some 1], true⟩, [("PS", "5")]⟩]⟩]⟩, by unfold Declared; decide, by decide, by decide⟩
 
-/-- **file_idempotent** (repaired): applying `unphase` twice to a file — header and records — equals applying it once;
-for HEAD this holds exactly when the header has at most one `##phasing` line. -/
+/-- **file_idempotent**: applying `unphase` twice to a file — header and records — equals applying it once (repaired header
+function); with the `break` this holds exactly when the header has at most one `##phasing` line. -/
 theorem file_idempotent (f : VcfFile) :
     unphaseFileFix (unphaseFileFix f) = unphaseFileFix f ∧
-    (unphaseFileCur (unphaseFileCur f) = unphaseFileCur f ↔ (f.header.filter isPhasing).length ≤ 1) := by
+    (unphaseFileCur (unphaseFileCur f) = unphaseFileCur f ↔ (f.header.filter isPhasingLine).length ≤ 1) := by
   refine ⟨?_, ?_⟩
-  · simp only [unphaseFileFix, header_idempotent, idempotent]
+  · simp only [unphaseFileFix, (header_fix_idempotent f.header).1, idempotent]
   · simp only [unphaseFileCur, idempotent, VcfFile.mk.injEq, and_true]
-    exact header_cur_idempotent_iff f.header
+    exact header_idempotent_iff f.header
 
 /-- **file_unphase_phase_eq_unphase**: a file whose records were only phase-edited and whose header only gained or lost
 `##phasing` lines / HP, PQ, PS definitions unphases to the same file. -/
 theorem file_unphase_phase_eq_unphase (f f' : VcfFile) (hr : PhaseOnlyEdit f.records f'.records)
     (hh : f'.header.filter keepLine = f.header.filter keepLine) : unphaseFileFix f' = unphaseFileFix f := by
   simp only [unphaseFileFix, unphase_phase_eq_unphase hr, header_phase_only_edit _ _ hh]
-
 
 /-! ## the executable edit checker used by the check (`Spec/C13Edit.lean`) -/
 
